@@ -103,6 +103,14 @@ pub fn run(a: &Args) {
                     Ok(Err(_)) => "join_error".to_string(),
                 },
             },
+            "multi" => {
+                let (callee2, _ch2) = Actor::spawn(None, Callee { mode: a.str("mode2").to_string(), log: log.clone() }, ()).await.unwrap();
+                match tokio::time::timeout(Duration::from_secs(3600), ractor::rpc::multi_call(&[callee.clone(), callee2], Ask::Q, timeout)).await {
+                    Err(_) => "hang".to_string(),
+                    Ok(Ok(v)) => v.iter().map(fmt).collect::<Vec<_>>().join("|"),
+                    Ok(Err(_)) => "SendErr".to_string(),
+                }
+            }
             other => panic!("unknown rpc scenario {other}"),
         };
         log.lock().unwrap().push(format!("result:{}@{}", res, t0.elapsed().as_millis()));
